@@ -409,6 +409,7 @@ func checkLong(root string, c longCase) []kit.V {
 type kase struct {
 	Kind string     `json:"kind"`
 	Long *longCase  `json:"long,omitempty"`
+	At   *atCase    `json:"at_name,omitempty"`
 	Line *lineCase  `json:"line,omitempty"`
 	Hist *histCase  `json:"hist,omitempty"`
 	R    *[2]string `json:"rlaw,omitempty"`
@@ -437,6 +438,8 @@ func realMain() {
 			return checkRLaw(root, []string{c.R[0]}, []string{c.R[1]})
 		case "long":
 			return checkLong(root, *c.Long)
+		case "atname":
+			return checkAtName(root, c.At.Name, c.At.Val)
 		}
 		return checkBatch(root, c.Line.Env, []string{c.Line.Line}, c.Line.Kind)
 	}
@@ -460,6 +463,9 @@ func realMain() {
 			case longCase:
 				kk.Kind = "long"
 				kk.Long = &c
+			case atCase:
+				kk.Kind = "atname"
+				kk.At = &c
 			}
 			r.Violation(v.Key, v.What, kk)
 		}
@@ -639,6 +645,16 @@ func realMain() {
 	nontrivial += int64(len(hists))
 	r.Sample(map[string]any{"env_history": hists[len(hists)/2].Assign})
 
+	// (3a) variable names that contain the '@' of the @R suffix: ${NAME} takes the
+	// whole name, ${NAME@R} strips exactly one trailing @R
+	for _, nm := range []string{"X@Y", "X@", "X@Rx", "X@R@Y", "@X", "X@r"} {
+		for _, val := range []string{"a.b+c", "", "v v"} {
+			report(checkAtName(root, nm, val))
+			evals++
+			nontrivial++
+		}
+	}
+
 	// (3b) long lines: word lengths that straddle the buffer sizes a
 	// line-oriented reader might use
 	var longs int64
@@ -667,12 +683,39 @@ func realMain() {
 
 	r.Set("evaluations", evals)
 	r.Set("distinct_nontrivial", nontrivial)
-	r.Set("rule", fmt.Sprintf("quoting law: every word of <= %d bytes over {a,SP,TAB,',$,#,CR,{,},@,\\,=,à,0xA0} quoted (3 placements) and every pair of words of <= 2 bytes (separate and adjacent); splitting: every line of <= %d tokens over {a,b,SP,TAB,','',#,$X,${X},${X@R},$$,${/},${:},CR,à,NEL,VT,FF}; long lines: a word of 4095..4097, 65500..65537, 70000, 131072 or 1048576 bytes (plain, quoted, after a variable, in a comment) between two ordinary lines; env histories: every sequence of <= %d assignments over {X,Y} x 10 values, and every sequence of 1-2 assignments made by Params.Setup over {X,Y,HOME} x 2 values followed by 0-2 script assignments, observed through expansion, Getenv and a child process; @R: every value of <= 3 bytes over 10 regexp metacharacters against every string of <= %d. non-trivial = non-empty words / lines with a quote, $, # or blank / all histories and values, counted", n1, n2, maxH, nstr))
+	r.Set("rule", fmt.Sprintf("quoting law: every word of <= %d bytes over {a,SP,TAB,',$,#,CR,{,},@,\\,=,à,0xA0} quoted (3 placements) and every pair of words of <= 2 bytes (separate and adjacent); splitting: every line of <= %d tokens over {a,b,SP,TAB,','',#,$X,${X},${X@R},$$,${/},${:},CR,à,NEL,VT,FF}; names containing '@' (X@Y, X@, X@Rx, X@R@Y, @X, X@r) through ${NAME} and ${NAME@R}; long lines: a word of 4095..4097, 65500..65537, 70000, 131072 or 1048576 bytes (plain, quoted, after a variable, in a comment) between two ordinary lines; env histories: every sequence of <= %d assignments over {X,Y} x 10 values, and every sequence of 1-2 assignments made by Params.Setup over {X,Y,HOME} x 2 values followed by 0-2 script assignments, observed through expansion, Getenv and a child process; @R: every value of <= 3 bytes over 10 regexp metacharacters against every string of <= %d. non-trivial = non-empty words / lines with a quote, $, # or blank / all histories and values, counted", n1, n2, maxH, nstr))
 	r.Set("env_histories", len(hists))
 	r.Set("r_law_values", len(rvals))
 	r.Set("exhaustive", !r.Capped())
 	r.Assume("an unquoted bare $ (not followed by a name, { or $) is not defined by the statement and is not generated; CR is a separator like blank and tab (doc: 'space-separated'; the statement lists CR among word bytes that need quoting)")
 	r.Finish()
+}
+
+type atCase struct {
+	Name string `json:"name"`
+	Val  string `json:"value"`
+}
+
+// checkAtName: a variable whose name contains '@'.
+func checkAtName(root, name, val string) []kit.V {
+	script := "env X=plain\nenv " + Q(name+"="+val) + "\nargs 0 ${" + name + "} ${" + name + "@R} $X ${X} ${X@R}\nexec henv\ncapstdout 3\n"
+	rec, res := runScript(root, script)
+	c := atCase{Name: name, Val: val}
+	bad := func(what string) []kit.V {
+		return []kit.V{{Key: fmt.Sprintf("at-name name=%q value=%q", name, val), What: fmt.Sprintf("variable named %q = %q: %s", name, val, what), Case: c}}
+	}
+	if res.Verdict != tsh.Pass {
+		return bad("the script did not pass: " + res.Log)
+	}
+	want := []string{val, regexp.QuoteMeta(val), "plain", "plain", "plain"}
+	if !eq(rec.args[0], want) {
+		return bad(fmt.Sprintf("`${%s} ${%s@R} $X ${X} ${X@R}` gave %q, want %q", name, name, rec.args[0], want))
+	}
+	child, _ := parseEnvDump(rec.stdouts[3])
+	if cv, ok := child[name]; !ok || cv != val {
+		return bad(fmt.Sprintf("an executed program sees %s=%q (present=%v)", name, cv, ok))
+	}
+	return nil
 }
 
 // checkRLaw: for every value v, ^(?:${X@R})$ must compile and match exactly v
